@@ -393,6 +393,36 @@ def emit() -> str:
     if not gw_only:
         raise ValueError("HostARP.get_default_gateway_*: expected exactly one cache look-up, of the configured default gateway")
 
+    # --- the receive path of an application payload: SessionManager.receive_frame hands the frame's destination port and IP
+    # protocol to SoftwareManager.receive_payload_from_session_manager, which looks the receiver up under exactly that key; the
+    # session of an inbound frame is keyed by the frame's SOURCE address, and a send through a session goes to that address
+    sm_cls = class_def(parse("simulator/system/core/session_manager.py"), "SessionManager")
+    rf = find_method(sm_cls, "receive_frame")
+    rf_calls = [c for c in ast.walk(rf) if isinstance(c, ast.Call) and ast.unparse(c.func) == "self.software_manager.receive_payload_from_session_manager"]
+    if len(rf_calls) != 1:
+        raise ValueError("SessionManager.receive_frame: expected exactly one hand-over to the software manager")
+    kw = {k.arg: ast.unparse(k.value) for k in rf_calls[0].keywords}
+    if kw.get("port") != "dst_port" or kw.get("protocol") != "frame.ip.protocol" or kw.get("frame") != "frame":
+        raise ValueError(f"SessionManager.receive_frame: unexpected hand-over arguments {kw}")
+    dp = sorted(ast.unparse(x.value) for x in ast.walk(rf) if isinstance(x, ast.Assign) and ast.unparse(x.targets[0]) == "dst_port")
+    if dp != ["None", "PORT_LOOKUP['NONE']", "frame.tcp.dst_port", "frame.udp.dst_port"]:
+        raise ValueError(f"SessionManager.receive_frame: dst_port is taken from {dp}")
+    swm = find_method(class_def(parse("simulator/system/core/software_manager.py"), "SoftwareManager"), "receive_payload_from_session_manager")
+    mr = [ast.unparse(x.value) for x in ast.walk(swm) if isinstance(x, ast.Assign) and ast.unparse(x.targets[0]) == "main_receiver"]
+    if mr != ["self.port_protocol_mapping.get((port, protocol), None)"]:
+        raise ValueError(f"receive_payload_from_session_manager: main receiver is {mr}")
+    gsk = find_method(sm_cls, "_get_session_key")
+    wia = sorted({ast.unparse(x.value) for x in ast.walk(gsk) if isinstance(x, ast.Assign) and ast.unparse(x.targets[0]) == "with_ip_address"})
+    if wia != ["frame.ip.dst_ip_address", "frame.ip.src_ip_address"]:
+        raise ValueError(f"_get_session_key: with_ip_address is taken from {wia}")
+    first_wia = next(x for x in gsk.body if isinstance(x, ast.Assign) and ast.unparse(x.targets[0]) == "with_ip_address")
+    if ast.unparse(first_wia.value) != "frame.ip.src_ip_address":
+        raise ValueError("_get_session_key: the default (inbound) peer address is not the frame's source address")
+    sess_dst = [ast.unparse(x.value) for x in ast.walk(rotd) if isinstance(x, ast.Assign) and ast.unparse(x.targets[0]) == "dst_ip_address"
+                and "session" in ast.unparse(x.value)]
+    if sess_dst != ["session.with_ip_address"]:
+        raise ValueError(f"resolve_outbound_transmission_details: a session send goes to {sess_dst}")
+
     def lst(xs):
         return "[" + ", ".join(f'("{n}", {k})' for n, k in xs) + "]"
     return f"""namespace Primaite.Gen.Forward
@@ -422,6 +452,10 @@ def hostUnicastSteps : List String := [{", ".join('"%s"' % x for x in host_steps
 def hostOnLink (inNet enabled : Bool) : Bool := {onlink}
 /-- HostARP.get_default_gateway_mac_address / _network_interface look up exactly the configured default gateway -/
 def hostGatewayGettersReadGatewayOnly : Bool := true
+/-- an inbound payload is handed to the software `port_protocol_mapping.get((frame's destination port, frame's IP protocol))`
+finds (SessionManager.receive_frame → SoftwareManager.receive_payload_from_session_manager); the session of an inbound frame is
+keyed by its SOURCE address and a send through a session goes to `session.with_ip_address`: replies go to the request's source -/
+def appReceiverByPortProtocolReplyToSource : Bool := true
 /-- `IPPacket.ttl` default -/
 def defaultTtl : Int := {ttl}
 /-- `Frame.decrement_ttl`: `self.ip.ttl -= k` -/
